@@ -25,7 +25,7 @@ var OCSPBehaviours = []string{
 	// authentic
 	"good", "good-delegate", "good-byname", "good-multi", "good-embed-issuer",
 	"revoked", "revoked-keycompromise", "revoked-hold",
-	"revoked-inv-before", "revoked-inv-equal", "revoked-inv-after", "revoked-inv-malformed", "revoked-after-st", "revoked-after-st-inv-before",
+	"revoked-inv-before", "revoked-inv-equal", "revoked-inv-after", "revoked-inv-malformed", "revoked-inv-undecodable", "revoked-after-st", "revoked-after-st-inv-before",
 	"unknown-status",
 	// forged
 	"forged-unrelated-nocert", "forged-unrelated-selfsigned", "forged-samename-ca", "forged-samename-ca-dressed", "forged-samename-delegate",
@@ -103,7 +103,7 @@ func OCSPClass(beh string, withST bool, issuerSelfSigned bool) string {
 			return ClsOK
 		}
 		return ClsEitherOK
-	case "revoked", "revoked-keycompromise", "revoked-hold", "revoked-inv-before", "revoked-inv-equal", "revoked-inv-malformed", "revoked-after-st", "revoked-after-st-inv-before":
+	case "revoked", "revoked-keycompromise", "revoked-hold", "revoked-inv-before", "revoked-inv-equal", "revoked-inv-malformed", "revoked-inv-undecodable", "revoked-after-st", "revoked-after-st-inv-before":
 		// the revocation time itself never excuses: only an invalidity date does
 		return ClsRevoked
 	case "forged-sibling-anyeku":
@@ -193,7 +193,7 @@ func (k *Kit) build(beh string) netsim.Reply {
 		}
 		r.Singles = []pki.OCSPSingle{s}
 		return body(r)
-	case "revoked-inv-before", "revoked-inv-equal", "revoked-inv-after", "revoked-inv-malformed", "forged-revoked-inv-after":
+	case "revoked-inv-before", "revoked-inv-equal", "revoked-inv-after", "revoked-inv-malformed", "revoked-inv-undecodable", "forged-revoked-inv-after":
 		r := base()
 		s := k.single(pki.OCSPRevoked)
 		s.Reason = 1
@@ -206,6 +206,9 @@ func (k *Kit) build(beh string) netsim.Reply {
 			s.Invalidity = &after
 		case "revoked-inv-malformed":
 			s.InvalidityRaw = append(pki.GeneralizedTimeDER(after), 0x05, 0x00) // trailing data
+		case "revoked-inv-undecodable":
+			// not DER: fractional seconds with trailing zeros, in the future
+			s.InvalidityRaw = append([]byte{0x18, 0x13}, "20960101000000.000Z"...)
 		case "forged-revoked-inv-after":
 			s.Invalidity = &after
 			r.SignKey = aux.unrelatedKey
@@ -385,7 +388,7 @@ func (k *Kit) OCSPHandler(script []netsim.Reply) netsim.Handler {
 			k.mu.Unlock()
 		}
 		i := req.Nth
-		if i >= len(script) {
+		if i >= len(script) || len(script) == 1 {
 			i = len(script) - 1
 		}
 		return script[i]
